@@ -360,6 +360,8 @@ KNOWN = {
             'a closure inside a comprehension directly in a class body reads the comprehension variable: E02 (comprehension flows live in the class scope, which nested functions skip)'),
     'F54': ('def f():\n    def g():\n        nonlocal x\n        x = 1\n    g()\n    print(x)\n    x = 2\nf()\n', None,
             'a name rebound through `nonlocal` in an inner function is not visible in the enclosing function before that function\'s own textual binding: E02'),
+    'F58': ('def f1():\n    def f11(p: x = (x := 1)): pass\n    return x\nf1()\n', None,
+            'a parameter annotation reads a name bound by a walrus in that parameter\'s default: Python evaluates defaults before annotations, supp decides visibility by text position: E02'),
     'F35': ('from .sub import x\nprint(sub)\n', 'pkg',
             '`from .sub import x` in a package __init__ binds `sub` in the package namespace at run time; supp reports `sub` undefined (asyncio/__init__.py idiom)'),
 }
